@@ -512,6 +512,23 @@ impl C11 {
             out.stats.inc("c11.decisions");
             let n = s.pre.len();
             let quality_on = s.cfg.quality_enabled;
+            // A quality factor stamped in this decision is the factor of the link as it is now:
+            // the cache may be up to 50 ms old, never a stale value under a fresh stamp.
+            for i in 0..n {
+                let (p0, p1) = (s.pre[i].verif_private(), s.post[i].verif_private());
+                if p1.quality_last_calculated_ms == s.now && p0.quality_last_calculated_ms != s.now {
+                    out.probe("c11.quality_recalculated");
+                    let fresh = srtla_core::selection::calculate_quality_multiplier(&s.pre[i], s.now);
+                    if (p1.quality_multiplier - fresh).abs() > 1e-12 * fresh.abs().max(1.0) {
+                        out.violate(
+                            "C11.quality_cache",
+                            "stale_value_under_fresh_stamp",
+                            idx,
+                            format!("link {i}: quality factor stamped {} at this decision, the link's factor now is {fresh} (previous stamp {} ms ago)", p1.quality_multiplier, s.now.saturating_sub(p0.quality_last_calculated_ms)),
+                        );
+                    }
+                }
+            }
             // skipped set
             let elig: Vec<bool> = (0..n)
                 .map(|i| {
